@@ -41,6 +41,7 @@ def setup(ctx):
         "with TOFU off the store must stay untouched; unparsable certificates are then not judged",
     ]
     ctx.require("monitor", "speak_first_calls", 18)
+    ctx.require("monitor", "client_mode_calls", 80)
     ctx.require("monitor", "l3_calls", 400)
     ctx.require("monitor", "changed_cert_calls", 30)
     ctx.require("monitor", "tampered_cert_calls", 20)
@@ -747,6 +748,99 @@ def run_speak_first(ctx):
         shutil.rmtree(tmp, ignore_errors=True)
 
 
+def run_client_modes(ctx):
+    """The pin is checked whichever way the client is configured: plain TOFU, CA verification NEXT TO TOFU (a private
+    CA signed both the pinned and the other certificate, so the handshake itself has nothing to object to), TOFU
+    with a client certificate, raw mode (decode_text=False), redirects off.  First contact pins; a pinned
+    host:port with another certificate is refused, no content, pin untouched."""
+    import ssl
+
+    from cryptography import x509
+
+    from nauyaca.client.session import GeminiClient
+    from nauyaca.security.tofu import CertificateChangedError
+
+    the_ca = certs.ca()
+    ca_a = certs.identity("c03-ca-a", "ec", cn="pinned.test", issuer=the_ca, sans=("127.0.0.1", "localhost"), serial=777021)
+    ca_b = certs.identity("c03-ca-b", "rsa", cn="pinned.test", issuer=the_ca, sans=("127.0.0.1", "localhost"), serial=777021)
+    own = certs.identity("c03-client-identity", "ec")
+    P = pool()
+
+    def behaviour(conn):
+        conn.read_line(timeout=4)
+        conn.send(b"20 text/gemini\r\ncontent from the peer\n")
+        conn.close()
+
+    tmp = tempfile.mkdtemp(prefix="vf-c03-modes-")
+    try:
+        with peers.ScriptedPeer(ca_a, behaviour, name="modes") as peer:
+            for mode in ("tofu", "ca+tofu", "clientcert+tofu", "raw+tofu", "ca+clientcert+tofu"):
+                a, b = (ca_a, ca_b) if mode.startswith("ca") else (P["ec1"], P["ec2"])
+                for op in ("get", "get-no-redirects", "upload", "delete"):
+                    dbp = os.path.join(tmp, f"{mode}-{op}.db")
+
+                    def make_client():
+                        kw = {}
+                        if mode.startswith("ca"):
+                            cctx = ssl.SSLContext(ssl.PROTOCOL_TLS_CLIENT)
+                            cctx.load_verify_locations(cafile=the_ca.certfile)
+                            if "clientcert" in mode:
+                                cctx.load_cert_chain(own.certfile, own.keyfile)
+                            kw.update(verify_ssl=True, ssl_context=cctx)
+                        elif "clientcert" in mode:
+                            kw.update(client_cert=own.certfile, client_key=own.keyfile)
+                        if mode.startswith("raw"):
+                            kw.update(decode_text=False)
+                        return GeminiClient(timeout=6, trust_on_first_use=True, tofu_db_path=Path(dbp), **kw)
+
+                    url = f"gemini://127.0.0.1:{peer.port}/x"
+
+                    async def call(c):
+                        if op == "get":
+                            return await c.get(url)
+                        if op == "get-no-redirects":
+                            return await c.get(url, follow_redirects=False)
+                        if op == "delete":
+                            return await c.delete(url)
+                        return await c.upload(url, b"payload", mime_type="text/plain")
+
+                    for step, presented in (("first-contact", a), ("same-again", a), ("other-certificate", b), ("other-certificate-new-client", b)):
+                        peer.swap_cert(presented)
+                        before = dump(dbp)
+                        try:
+                            r = asyncio.run(call(make_client()))
+                            res = ("response", r.status)
+                        except CertificateChangedError:
+                            res = ("changed",)
+                        except BaseException as e:  # noqa: BLE001
+                            res = ("error", type(e).__name__, str(e)[:60])
+                        peer.wait_idle(3)
+                        after = dump(dbp)
+                        pins = [f for h, p, f, _ in after if (h, p) == ("127.0.0.1", peer.port)]
+                        ctx.count("monitor", "l3_calls")
+                        ctx.count("monitor", "client_mode_calls")
+                        wit = {"level": "L3", "client": mode, "operation": op, "step": step, "peer_presents": presented.fingerprint[:16], "pinned_before": [f[:16] for h, p, f, _ in before], "result": res,
+                               "pinned_after": [f[:16] for f in pins]}
+                        if step.startswith("other"):
+                            ctx.count("monitor", "changed_cert_calls")
+                            if res[0] == "response":
+                                ctx.violation(f"accepted-changed-cert:entry={op}:client={mode}", "a pinned host presented another certificate and the call returned a response", wit)
+                            elif pins != [a.fingerprint]:
+                                ctx.violation(f"pin-replaced:entry={op}:client={mode}", "the pin changed although the certificate was refused", wit)
+                            elif res[0] != "changed":
+                                ctx.undecided(f"client-modes:changed-cert-ended-as-{res[1]}")
+                        elif res[0] == "response":
+                            if pins != [a.fingerprint]:
+                                ctx.violation(f"response-without-pin:entry={op}:client={mode}", "content was returned but the presented certificate is not what the store holds for this host afterwards", wit)
+                        elif res[0] == "changed":
+                            ctx.violation(f"spurious-change:entry={op}:client={mode}", "the host presented its pinned certificate and was refused as changed", wit)
+                        else:
+                            ctx.undecided(f"client-modes:{step}-ended-as-{res[1]}")
+                        ctx.case(("client-modes", mode, op, step, res[0]), True, sample=wit)
+    finally:
+        shutil.rmtree(tmp, ignore_errors=True)
+
+
 def run(ctx):
     run_l0(ctx)
     run_l3(ctx)
@@ -756,3 +850,5 @@ def run(ctx):
         run_store_faults(ctx)
     if ctx.mine(3) or ctx.nshards == 1:
         run_speak_first(ctx)
+    if ctx.mine(4) or ctx.nshards == 1:
+        run_client_modes(ctx)
